@@ -25,6 +25,7 @@ RULE = (
     'build attempt rejected and invokes nothing. Non-trivial: failing node is not the root '
     'and is shared or inside a container; or an exotic family; or >=2 failures in sequence.'
 )
+RULE += (' ' + 'Round 6: family and hostile value passed positionally (positional-only parameters); the raised exception is one that escaped from an earlier fdl.build of another configuration (already decorated).')
 RULE += (' ' + 'Round 3: the failing callable modifies its list/dict argument before raising.')
 ASSUMPTIONS = [
     'exceptions whose own __str__ raises are outside the contract',
@@ -38,10 +39,11 @@ FLOORS = {'exotic_family': 0.3, 'failing_shared_or_in_container': 0.16, 'nested_
 
 PLAIN = ['plain', 'valueerror', 'typeerror', 'assertion']
 EXOTIC = ['init2', 'strov', 'slots', 'kwonly', 'new', 'final', 'keyerror', 'oserror', 'unicode',
-          'stopiteration', 'group', 'systemexit', 'baseexc', 'localclass', 'localclass']
+          'stopiteration', 'group', 'systemexit', 'baseexc', 'localclass', 'localclass', 'redecorated',
+          'redecorated']
 # families for which the Fiddle context must be present
 MUST_HAVE_CONTEXT = set(PLAIN) | {'init2', 'strov', 'slots', 'kwonly', 'new', 'keyerror',
-                                  'oserror', 'unicode', 'stopiteration', 'localclass'}
+                                  'oserror', 'unicode', 'stopiteration', 'localclass', 'redecorated'}
 
 
 @st.composite
@@ -85,6 +87,11 @@ def strategy_(draw, tier):
     kw['bad'] = {'leaf': {'$sym': bad}}
   nd['fn'] = {'kind': 'sym', 'name': 'things:raiser'}
   nd['kw'] = kw
+  if draw(st.sampled_from(range(3))) == 0:
+    # the family and the hostile value are passed positionally (positional-only parameters)
+    nd['fn'] = {'kind': 'sym', 'name': 'things:raiser_po'}
+    nd['pos'] = [kw.pop('family')] + ([kw.pop('bad')] if bad else [])
+    recipe['positional'] = True
   # nested-build nodes
   for i in b_nodes:
     if i != fi and draw(st.floats(0, 1)) < 0.2:
@@ -149,10 +156,20 @@ def check(case):
   out.cls('family_' + family)
   out.nontrivial = bool((failing is not root and shared_or_contained) or exotic or nbad >= 2)
   feature = family + (':' + case['bad'].split(':')[1] if case.get('bad') else '')
+  if case.get('positional'):
+    out.cls('positional_failing_args')
   valid_paths = {path_code(p) for p in paths}
 
   before = C.canon(root, history=True)
   for oi, op in enumerate(case['ops']):
+    things.RAISE_ENABLED = True
+    if op == 'bad' and family == 'redecorated':
+      # a failure of another configuration, caught earlier (it names a path of *that* configuration)
+      pre = fdl.Config(things.h1, e={'pre': [fdl.Config(things.raiser, x='pre', family='valueerror')]})
+      try:
+        fdl.build(pre)
+      except ValueError as e:
+        things.PRESET_EXC[0] = e
     things.RAISE_ENABLED = (op == 'bad')
     del things.LAST_RAISED[:]
     del things.NESTED_LOG[:]
@@ -205,9 +222,10 @@ def check(case):
         out.add('message-does-not-start-with-original', 'mismatch', '', feature,
                 f'op {oi}: original {s_orig!r} escaped {s_esc!r}')
         break
-      if 'Fiddle context:' in s_esc:
+      if s_esc.count('Fiddle context:') > s_orig.count('Fiddle context:'):
         try:
-          seg = s_esc.split(' at <root>', 1)[1].split(' with positional arguments:', 1)[0]
+          # the paragraph this build appended is the last one
+          seg = s_esc.rsplit(' at <root>', 1)[1].split(' with positional arguments:', 1)[0]
         except IndexError:
           seg = None
         if seg is None or seg not in valid_paths:
